@@ -639,6 +639,21 @@ cleanup:
       continue;
     }
 
+    /* The requested server may have been removed (and released) by a callback
+     * calling ares_set_servers*(): only compare pointers */
+    if (entry.server != NULL) {
+      const ares_slist_node_t *snode;
+      for (snode = ares_slist_node_first(channel->servers); snode != NULL;
+           snode = ares_slist_node_next(snode)) {
+        if (ares_slist_node_val(snode) == entry.server) {
+          break;
+        }
+      }
+      if (snode == NULL) {
+        entry.server = NULL;
+      }
+    }
+
     internal_status = ares_send_query(entry.server, query, now);
     /* We only care about ARES_ENOMEM */
     if (internal_status == ARES_ENOMEM) {
